@@ -67,6 +67,7 @@ func runC16(c *core.Ctx) {
 	runC16FlateGuards(k)
 	runC16Zlib(k)
 	runC16Align(k)
+	runC16Budget(k)
 	c16Index(c, k.g)
 }
 
